@@ -19,7 +19,7 @@ Mirrors, branch by branch:
   start_with_params` against a simulated ADwin register file with an access log.
 
 Strings are `List Char` (the harness only feeds code points the model treats like CPython does:
-ASCII plus the non-ASCII line separators). Python exceptions are values.
+ASCII, the non-ASCII line separators, and the eleven non-ASCII code points with an ASCII case partner, see `upperS`). Python exceptions are values.
 
 Core Lean only (the driver exe links this file).
 -/
@@ -40,16 +40,43 @@ def isSpaceU (c : Char) : Bool :=
 
 def isDigit (c : Char) : Bool := '0' ≤ c && c ≤ '9'
 
+/-- ASCII letter case (what a regex literal under `re.IGNORECASE` and the prefix tests see) -/
 def upperC (c : Char) : Char := if 'a' ≤ c ∧ c ≤ 'z' then Char.ofNat (c.toNat - 32) else c
 def lowerC (c : Char) : Char := if 'A' ≤ c ∧ c ≤ 'Z' then Char.ofNat (c.toNat + 32) else c
 
-/-- `str.upper()` (ASCII) -/
-def upper (s : Str) : Str := s.map upperC
-/-- `str.lower()` (ASCII) -/
-def lower (s : Str) : Str := s.map lowerC
+/-- `str.upper()` of one code point, on the admitted alphabet: ASCII plus every non-ASCII code point whose
+`upper()` or `lower()` is pure ASCII (these are exactly the ones that can collide with an ASCII name):
+U+00DF ß → "SS", U+0131 ı → "I", U+017F ſ → "S", U+FB00..FB06 (ligatures) → "FF" "FI" "FL" "FFI" "FFL" "ST" "ST";
+U+212A (Kelvin sign) is its own upper case. Other code points are outside the modelled alphabet (identity). -/
+def upperS (c : Char) : Str :=
+  if c = Char.ofNat 0xDF then ['S', 'S']
+  else if c = Char.ofNat 0x131 then ['I']
+  else if c = Char.ofNat 0x17F then ['S']
+  else if c = Char.ofNat 0xFB00 then ['F', 'F']
+  else if c = Char.ofNat 0xFB01 then ['F', 'I']
+  else if c = Char.ofNat 0xFB02 then ['F', 'L']
+  else if c = Char.ofNat 0xFB03 then ['F', 'F', 'I']
+  else if c = Char.ofNat 0xFB04 then ['F', 'F', 'L']
+  else if c = Char.ofNat 0xFB05 then ['S', 'T']
+  else if c = Char.ofNat 0xFB06 then ['S', 'T']
+  else [upperC c]
+
+/-- `str.lower()` of one code point on the same alphabet: only U+212A (Kelvin sign) → "k" is special -/
+def lowerS (c : Char) : Str :=
+  if c = Char.ofNat 0x212A then ['k'] else [lowerC c]
+
+/-- `str.upper()` -/
+def upper (s : Str) : Str := s.flatMap upperS
+/-- `str.lower()` -/
+def lower (s : Str) : Str := s.flatMap lowerS
+
+/-- every code point is ASCII -/
+def isAscii (s : Str) : Prop := ∀ c ∈ s, c.toNat < 128
 
 /-- does `s` start with the lower-case literal `pat`, ignoring ASCII case?
-(`s.upper().startswith(PAT)` and a case-insensitive regex literal) -/
+(a case-insensitive regex literal without letters that have non-ASCII case partners, and
+`s.upper().startswith(PAT)` for `PAT` ∈ {"DATA_", "PAR_"}: no non-ASCII code point has D, A, P, R or _ in its
+upper case, and T only as the second letter of "ST") -/
 def startsWithCI : (pat s : Str) → Bool
   | [], _ => true
   | _ :: _, [] => false
